@@ -23,6 +23,10 @@ type gwReader struct {
 	pos   int  // next unread message of the current frame
 	end   int  // end of the current frame
 	fin   bool // the current frame is the last one of its message
+	// tail: bytes of the current frame that the JSON decoder did not consume (the encoder's trailing
+	// newline stays unread whenever the value ends exactly where one of the decoder's reads ends).
+	// NextFrame on a frame with unread bytes parses them as a frame header: a protocol error.
+	tail bool
 }
 
 // enter moves the reader to frame i.
@@ -103,13 +107,25 @@ func init() {
 			return nil, stBlocked
 		}
 		g.waitFn = nil
+		if r.tail {
+			return TupleVal{hdr, m.newErrorValue("websocket protocol error: stray payload bytes parsed as a frame header")}, stNext
+		}
 		r.enter(r.frame)
+		// the header tells whether this frame ends its message
+		ht := c.fn.Signature.Results().At(0).Type()
+		if hs, ok := hdr.(StructVal); ok {
+			if i := structFieldIndex(ht, "Fin"); i >= 0 {
+				f := append([]Value{}, hs.f...)
+				f[i] = mkBool(r.fin)
+				hdr = StructVal{f}
+			}
+		}
 		return TupleVal{hdr, IfaceVal{}}, stNext
 	})
 	reg("(*"+wu+"Reader).Discard", func(m *Machine, g *Goroutine, c *callCtx) (Value, stepStatus) {
 		r := m.nativeOf(c.args[0], "Reader.Discard").(*gwReader)
 		for {
-			r.pos = r.end // what is left of this frame
+			r.pos, r.tail = r.end, false // what is left of this frame
 			if r.fin || r.frame == 0 {
 				g.waitFn = nil
 				return IfaceVal{}, stNext
@@ -193,6 +209,13 @@ func init() {
 		}
 		i := d.buf[0]
 		d.buf = d.buf[1:]
+		if len(d.buf) == 0 && d.r.pos >= d.r.end && m.cfg.Params["gobwas_large"] == 1 {
+			// the value was the last of its frame: whether its trailing newline has been read as well
+			// depends on where the decoder's reads happened to end
+			left := mkVar(m.uniqueName("trailing-newline-left-unread"), SBool, nil, nil)
+			m.declare(left)
+			d.r.tail = m.branch(left)
+		}
 		return m.jsonStoreInto(d.r.s.msgs[i], c.args[1]), stNext
 	})
 }
